@@ -70,6 +70,21 @@ CLAIMED = {
              "the interpreter (C01), lli.",
         technique="Lean 4 proof (layout arithmetic, two-algorithm agreement) + end-to-end correspondence",
         design="§4 C10"),
+    "C11": dict(
+        text="Lean theorems: the incremental container bookkeeping of the scoper reports a cyclical constant/structure "
+             "exactly when the by-value dependency graph has a cycle, for every edge list and hence independently of the "
+             "order of declarations (`cycle_detected`, `cycle_perm_invariant`, via the invariant contained_ids = reachability); "
+             "in a well-formed type no void/slice/slice-pointer/view hides at any nesting depth (`wellformed_inside`); accepted "
+             "`extern` signature types consist of ABI primitives under pointers/views/array views at every depth "
+             "(`extern_abi`). The legality model is compared with the compiler on every type (9 leaves x 7 constructors, "
+             "depth 2 quick / 3 thorough) in 8 declaration positions, random dependency graphs against two independent cycle "
+             "checks, generated programs under random permutations of their declarations, and fixed duplicate / word-size / "
+             "non-constant-length cases. Partial: behavioural order independence of whole programs is exercised, not proved.",
+        note="Trusted: Lean kernel, transcription of value_type.rs / typer.rs legality and of found_container_1 (checked "
+             "exhaustively / on random graphs), the interpreter (C01). Two panics were found here and fixed in /repo "
+             "(nested array-likes in extern signatures; pointer to a cyclical structure).",
+        technique="Lean 4 proof (reachability invariant of an incremental closure; structural induction on types) + exhaustive type/position and random-graph correspondence",
+        design="§4 C11"),
     "C12": dict(
         text="Lean model of import expansion with theorems for every module set and every processing order of the import "
              "pairs (the Rust iterates a HashSet): a module gains exactly the exports of the modules it imports directly — "
